@@ -11,9 +11,10 @@ use arrow::array::{ArrayRef, Int32Array, StringArray};
 use arrow::compute::SortOptions;
 use datafusion_common::hash_utils::create_hashes;
 use datafusion_physical_expr::expressions::col;
-use datafusion_physical_expr::{LexOrdering, Partitioning, PhysicalSortExpr};
+use datafusion_common::{ScalarValue, SplitPoint};
+use datafusion_physical_expr::{LexOrdering, Partitioning, PhysicalExpr, PhysicalSortExpr, RangePartitioning};
 use datafusion_physical_plan::ExecutionPlan;
-use datafusion_physical_plan::repartition::{REPARTITION_RANDOM_STATE, RepartitionExec};
+use datafusion_physical_plan::repartition::{REPARTITION_RANDOM_STATE, RangeExpr, RepartitionExec};
 use dst_common::Tier;
 use dst_common::rng::Rng;
 use serde_json::{Value, json};
@@ -35,6 +36,154 @@ fn expected_hash_partition(rows: &[Row], keys: &[String], n: usize) -> Vec<usize
     buf.iter().map(|h| (*h % n as u64) as usize).collect()
 }
 
+
+/// One key of a range partitioning: column, direction, null placement.
+#[derive(Clone, Debug)]
+struct RangeKey {
+    col: String,
+    desc: bool,
+    nulls_first: bool,
+}
+
+/// A key value of a row or of a split point (k, s or v), as JSON: null | integer | string.
+fn cmp_json(a: &Value, b: &Value, key: &RangeKey) -> std::cmp::Ordering {
+    use std::cmp::Ordering::*;
+    match (a.is_null(), b.is_null()) {
+        (true, true) => Equal,
+        (true, false) => {
+            if key.nulls_first { Less } else { Greater }
+        }
+        (false, true) => {
+            if key.nulls_first { Greater } else { Less }
+        }
+        (false, false) => {
+            let c = match (a.as_i64(), b.as_i64()) {
+                (Some(x), Some(y)) => x.cmp(&y),
+                _ => a.as_str().unwrap_or("").cmp(b.as_str().unwrap_or("")),
+            };
+            if key.desc { c.reverse() } else { c }
+        }
+    }
+}
+fn cmp_tuple(a: &[Value], b: &[Value], keys: &[RangeKey]) -> std::cmp::Ordering {
+    for (i, k) in keys.iter().enumerate() {
+        let c = cmp_json(&a[i], &b[i], k);
+        if c != std::cmp::Ordering::Equal {
+            return c;
+        }
+    }
+    std::cmp::Ordering::Equal
+}
+fn row_key(r: &Row, keys: &[RangeKey]) -> Vec<Value> {
+    keys.iter()
+        .map(|k| match k.col.as_str() {
+            "k" => json!(r.k),
+            "s" => json!(r.s),
+            _ => json!(r.v),
+        })
+        .collect()
+}
+/// The documented routing function: partition i holds the keys at/after split point i-1 and
+/// before split point i, i.e. the number of split points that are <= the row's key.
+fn expected_range_partition(rows: &[Row], keys: &[RangeKey], splits: &[Vec<Value>]) -> Vec<usize> {
+    rows.iter()
+        .map(|r| {
+            let key = row_key(r, keys);
+            splits.iter().filter(|sp| cmp_tuple(sp, &key, keys) != std::cmp::Ordering::Greater).count()
+        })
+        .collect()
+}
+fn scalar_of(col: &str, v: &Value) -> Option<ScalarValue> {
+    Some(match col {
+        "k" => ScalarValue::Int32(if v.is_null() { None } else { Some(v.as_i64()? as i32) }),
+        "s" => ScalarValue::Utf8(if v.is_null() { None } else { Some(v.as_str()?.to_string()) }),
+        "v" => ScalarValue::Int64(if v.is_null() { None } else { Some(v.as_i64()?) }),
+        _ => return None,
+    })
+}
+fn parse_range(v: &Value) -> Option<(Vec<RangeKey>, Vec<Vec<Value>>)> {
+    let keys: Vec<RangeKey> = v
+        .get("keys")?
+        .as_array()?
+        .iter()
+        .map(|k| {
+            Some(RangeKey {
+                col: k.get("col")?.as_str().filter(|c| ["k", "s", "v"].contains(c))?.to_string(),
+                desc: k.get("desc")?.as_bool()?,
+                nulls_first: k.get("nulls_first")?.as_bool()?,
+            })
+        })
+        .collect::<Option<_>>()?;
+    if keys.is_empty() || keys.len() > 3 {
+        return None;
+    }
+    // distinct key columns (a LexOrdering drops duplicate expressions)
+    for i in 0..keys.len() {
+        for j in 0..i {
+            if keys[i].col == keys[j].col {
+                return None;
+            }
+        }
+    }
+    let mut splits: Vec<Vec<Value>> = vec![];
+    for sp in v.get("splits")?.as_array()? {
+        let t = sp.as_array()?.clone();
+        if t.len() != keys.len() {
+            return None;
+        }
+        for (i, k) in keys.iter().enumerate() {
+            scalar_of(&k.col, &t[i])?;
+        }
+        splits.push(t);
+    }
+    if splits.len() > 15 {
+        return None;
+    }
+    // the shrinker may edit split points: keep them strictly ordered (drop the others)
+    let mut ordered: Vec<Vec<Value>> = vec![];
+    for sp in splits {
+        if ordered.last().is_none_or(|l| cmp_tuple(l, &sp, &keys) == std::cmp::Ordering::Less) {
+            ordered.push(sp);
+        }
+    }
+    Some((keys, ordered))
+}
+fn gen_range(rng: &mut Rng) -> Value {
+    let mut cols = vec!["k", "s", "v"];
+    let nk = *rng.pick(&[1usize, 1, 2, 3]);
+    let mut keys = vec![];
+    for _ in 0..nk {
+        let c = cols.remove(rng.below(cols.len() as u64) as usize);
+        keys.push(json!({"col": c, "desc": rng.chance(1, 2), "nulls_first": rng.chance(1, 2)}));
+    }
+    let rk: Vec<RangeKey> = keys
+        .iter()
+        .map(|k| RangeKey { col: k["col"].as_str().unwrap().to_string(), desc: k["desc"].as_bool().unwrap(), nulls_first: k["nulls_first"].as_bool().unwrap() })
+        .collect();
+    // candidate split tuples from the value domains of the generated tables (so that rows equal to a
+    // split point, and NULL split values, occur), then sorted and de-duplicated under the ordering
+    let n = *rng.pick(&[0u64, 1, 1, 2, 3, 5, 7]);
+    let mut cands: Vec<Vec<Value>> = (0..n)
+        .map(|_| {
+            rk.iter()
+                .map(|k| {
+                    if rng.chance(1, 8) {
+                        return Value::Null;
+                    }
+                    match k.col.as_str() {
+                        "k" => json!(rng.below(7) as i64),
+                        "s" => json!(format!("{}{}", ["a", "b", "c", "dd", "", "abcd"][rng.below(6) as usize], rng.below(4))),
+                        _ => json!(rng.below(1000) as i64 - 300),
+                    }
+                })
+                .collect()
+        })
+        .collect();
+    cands.sort_by(|a, b| cmp_tuple(a, b, &rk));
+    cands.dedup_by(|a, b| cmp_tuple(a, b, &rk) == std::cmp::Ordering::Equal);
+    json!({"keys": keys, "splits": cands})
+}
+
 impl Scenario for Repartition {
     fn name(&self) -> &'static str {
         "c10-repartition"
@@ -50,18 +199,20 @@ impl Scenario for Repartition {
             ..Default::default()
         };
         let table = tg.generate(rng);
-        let mode = *rng.pick(&["hash", "hash", "rr"]);
+        let mode = *rng.pick(&["hash", "hash", "rr", "range", "range"]);
         let keys: Vec<&str> = match rng.below(4) {
             0 => vec!["k"],
             1 => vec!["s"],
             2 => vec!["k", "s"],
             _ => vec!["k", "s", "v"],
         };
-        let outputs = rng.range(1, 8);
+        let range = gen_range(rng);
+        let outputs = if mode == "range" { range["splits"].as_array().map_or(1, |a| a.len() as u64 + 1) } else { rng.range(1, 8) };
         let drops: Vec<Value> =
             (0..outputs).map(|_| if rng.chance(1, 8) { json!(rng.range(0, 2)) } else { Value::Null }).collect();
         json!({
             "table": table,
+            "range": if mode == "range" { range } else { Value::Null },
             "mode": mode,
             "keys": keys,
             "outputs": outputs,
@@ -108,7 +259,14 @@ impl Scenario for RepartitionFaults {
 async fn run(case: Value, fault_mode: bool) -> Outcome {
     let Some(table) = parse_table(&case["table"]) else { return Outcome::Invalid };
     let Some(outputs) = case["outputs"].as_u64().filter(|n| (1..=16).contains(n)) else { return Outcome::Invalid };
-    let outputs = outputs as usize;
+    let mut outputs = outputs as usize;
+    let range = if case["mode"].as_str() == Some("range") {
+        let Some(r) = parse_range(&case["range"]) else { return Outcome::Invalid };
+        outputs = r.1.len() + 1;
+        Some(r)
+    } else {
+        None
+    };
     let Some(env) = EnvSpec::parse(&case["env"]) else { return Outcome::Invalid };
     let keys: Vec<String> = match case["keys"].as_array() {
         Some(a) => a.iter().filter_map(|x| x.as_str().map(|s| s.to_string())).collect(),
@@ -150,7 +308,27 @@ async fn run(case: Value, fault_mode: bool) -> Outcome {
         SortOptions { descending: false, nulls_first: true },
     )]);
     let source = Arc::new(SimSourceExec::with_ordering("t", table, if preserve { ordering } else { None }, false));
-    let partitioning = if hash {
+    let mut range_expr: Option<RangeExpr> = None;
+    let partitioning = if let Some((rkeys, splits)) = &range {
+        let Some(ord) = LexOrdering::new(rkeys.iter().map(|k| {
+            PhysicalSortExpr::new(col(&k.col, &schema).unwrap(), SortOptions { descending: k.desc, nulls_first: k.nulls_first })
+        })) else {
+            return Outcome::Invalid;
+        };
+        let points: Vec<SplitPoint> = splits
+            .iter()
+            .map(|sp| SplitPoint::new(sp.iter().zip(rkeys.iter()).map(|(v, k)| scalar_of(&k.col, v).unwrap()).collect()))
+            .collect();
+        let rp = match RangePartitioning::try_new(ord, points) {
+            Ok(rp) => rp,
+            Err(e) => return violation("plan-error", format!("RangePartitioning::try_new rejected strictly ordered split points: {e}")),
+        };
+        match RangeExpr::try_new(rkeys.iter().map(|k| col(&k.col, &schema).unwrap()).collect(), &rp) {
+            Ok(e) => range_expr = Some(e),
+            Err(e) => return violation("plan-error", format!("RangeExpr::try_new failed: {e}")),
+        }
+        Partitioning::Range(rp)
+    } else if hash {
         Partitioning::Hash(keys.iter().map(|k| col(k, &schema).unwrap()).collect(), outputs)
     } else {
         Partitioning::RoundRobinBatch(outputs)
@@ -190,7 +368,33 @@ async fn run(case: Value, fault_mode: bool) -> Outcome {
         }
         sim::probe("probe.fault_not_reached");
     }
-    let expect_part: Vec<usize> = if hash { expected_hash_partition(&rows, &keys, outputs) } else { vec![] };
+    let routed = hash || range.is_some();
+    let expect_part: Vec<usize> = if let Some((rkeys, splits)) = &range {
+        let e = expected_range_partition(&rows, rkeys, splits);
+        // the range-partition expression must name the same output for every row (it is what
+        // dynamic filters use to decide which partition a row belongs to)
+        if let Some(rx) = &range_expr {
+            let batch = crate::data::rows_to_batch(&rows);
+            match rx.evaluate(&batch).and_then(|v| v.into_array(rows.len())) {
+                Ok(arr) => {
+                    let ids = arr.as_any().downcast_ref::<arrow::array::UInt64Array>();
+                    let Some(ids) = ids else { return violation("range-expr", "RangeExpr did not return UInt64".into()) };
+                    for (i, r) in rows.iter().enumerate() {
+                        if ids.value(i) as usize != e[i] {
+                            return violation("range-expr", format!("RangeExpr::evaluate names partition {} for row {} (key {:?}), the split points {:?} select {}", ids.value(i), r.id, row_key(r, rkeys), splits, e[i]));
+                        }
+                    }
+                    sim::probe("probe.range_expr_checked");
+                }
+                Err(e) => return violation("range-expr", format!("RangeExpr::evaluate failed: {e}")),
+            }
+        }
+        e
+    } else if hash {
+        expected_hash_partition(&rows, &keys, outputs)
+    } else {
+        vec![]
+    };
     let mut seen: std::collections::BTreeMap<i64, usize> = Default::default();
     for (p, r) in results.iter().enumerate() {
         match r {
@@ -220,8 +424,9 @@ async fn run(case: Value, fault_mode: bool) -> Outcome {
                         if rows[orig] != r {
                             return violation("corrupt-row", format!("row {} changed: {:?} -> {:?}", r.id, rows[orig], r));
                         }
-                        if hash && expect_part[orig] != p {
-                            return violation("misrouted-row", format!("row {} (keys {:?}) arrived at output {p}, hash % {outputs} says {}", r.id, keys, expect_part[orig]));
+                        if routed && expect_part[orig] != p {
+                            let how = if hash { format!("hash % {outputs} on {keys:?}") } else { format!("range routing {:?}", case["range"]) };
+                            return violation("misrouted-row", format!("row {} ({:?}) arrived at output {p}, {how} says {}", r.id, rows[orig], expect_part[orig]));
                         }
                         if preserve {
                             if let Some(prev) = last_k {
@@ -242,7 +447,7 @@ async fn run(case: Value, fault_mode: bool) -> Outcome {
         match seen.get(&r.id) {
             Some(_) => {}
             None => {
-                let excused = if hash { drops[expect_part[i]].is_some() } else { any_drop };
+                let excused = if routed { drops[expect_part[i]].is_some() } else { any_drop };
                 if !excused {
                     return violation("lost-row", format!("row {} (from input partition {}) was never delivered to any output", r.id, r.id / 100_000));
                 }
@@ -251,6 +456,9 @@ async fn run(case: Value, fault_mode: bool) -> Outcome {
     }
     if any_drop {
         sim::probe("probe.output_dropped_early");
+    }
+    if range.is_some() {
+        sim::probe("probe.range_partitioning_run");
     }
     sim::probe_n("probe.input_partitions", n_in as u64);
     // quiescence invariants
@@ -267,7 +475,7 @@ pub fn check() -> Check {
         scenarios: vec![Box::new(Repartition)],
         cases_quick: 30_000,
         cases_thorough: 600_000,
-        rule: "runs: seeded cases (1-4 scripted input partitions x 0-8 batches x 0-32 rows with NULLs and duplicate keys, Pending/virtual delays between batches; round-robin or hash on 1-3 keys into 1-8 outputs; preserve_order over sorted inputs; batch_size 1-64; pool from ample to refusing most growth + noisy neighbour, forcing spilled batches; tiny spill-file rotation; SimDisk read chunking; some outputs dropped after k batches), each under one seeded scheduler policy. distinct = distinct poll-order traces; non-trivial = >= 2 tasks runnable at some decision or a fault/refusal fired",
+        rule: "runs: seeded cases (1-4 scripted input partitions x 0-8 batches x 0-32 rows with NULLs and duplicate keys, Pending/virtual delays between batches; round-robin, hash on 1-3 keys into 1-8 outputs, or range on 1-3 keys (ASC/DESC, NULLS FIRST/LAST) with 0-7 split points incl. NULL split values and rows equal to a split point, routing compared with the documented split-point rule and with RangeExpr::evaluate; preserve_order over sorted inputs; batch_size 1-64; pool from ample to refusing most growth + noisy neighbour, forcing spilled batches; tiny spill-file rotation; SimDisk read chunking; some outputs dropped after k batches), each under one seeded scheduler policy. distinct = distinct poll-order traces; non-trivial = >= 2 tasks runnable at some decision or a fault/refusal fired",
         assumptions: vec![
             "a task poll is atomic (races inside synchronous sections are covered at L2 for the channels and the spill pool)",
             "every output partition is consumed by its own concurrently schedulable task",
